@@ -92,6 +92,15 @@ Theorem C18_live_history : forall tz now ops,
   active (aj_phase a) -> aj_kill a = false -> In id (a_reg (a_steps (a_init tz now) ops)).
 Proof. exact history_live. Qed.
 
+(* non-vacuity of [dead]: the self-deleted job of C18_example is dead afterwards, and stays unstarted through a later
+   scheduling call and a long run *)
+Example C18_dead_reachable :
+  let c := mkCfg CYCLIC [TCyclic 5000000] 1 [] true None None false 1 1 [] [] [] in
+  let s1 := fst (a_step (a_init None 1000000) (TSchedule c [2000000] [] [ADelete 0%nat] [])) in
+  let s2 := fst (a_step s1 (TRun 30000000)) in
+  dead s2 0%nat.
+Proof. vm_compute. eexists. split; [reflexivity|]. vm_compute. tauto. Qed.
+
 Print Assumptions C18_delete_cancels.
 Print Assumptions C18_loop_resumes_only_suspended.
 Print Assumptions C18_cancelled_never_resumes.
